@@ -122,7 +122,7 @@ mutual
     | members ms =>
       simp only [Body.All, extBody] at hb ⊢
       exact ItemsAll_addMarker (ItemsAll.ext ms hb)
-    | element e => simpa only [Body.All, extBody] using hb
+    | element e => simp only [Body.All, extBody] at hb ⊢; exact Desc.All.ext e hb
   theorem ItemsAll.ext (l : List Item) (hl : ItemsAll P l) : ItemsAll P (extItems l) := by
     cases l with
     | nil => simp [ItemsAll, extItems]
